@@ -4,29 +4,40 @@ C05 — what the client transmits is one well-formed frame, or nothing.
 (model: `writePlain`, the plaintext handed to the cipher). Helper lemmas: `Lemmas/Send.lean`.
 -/
 import Rscp.Lemmas.Send
+import Rscp.Props.C05Defs
 namespace Rscp.Props.C05
 open Rscp Rscp.Model
-
-/-- what `Client.send` hands to the cipher for transmission, or the error it returns instead -/
-def clientSend (useCrc : Bool) (sec nsec : Int) (reqs : List Msg) : Res (List Byte) :=
-  match validateRequests reqs with
-  | .ok () => writePlain reqs useCrc sec nsec
-  | .err e => .err e
-  | .panic => .panic
-
-/-- the time stamp a plaintext frame carries -/
-def frameTime (p : List Byte) : Int × Int :=
-  (toSigned 8 (leNat ((p.drop 4).take 8)), toSigned 4 (leNat ((p.drop 12).take 4)))
 
 /-- never a panic — for values a Go program can hold -/
 theorem send_no_panic (useCrc : Bool) (sec nsec : Int) (reqs : List Msg) (hgo : Spec.MsgsOK reqs) :
     clientSend useCrc sec nsec reqs ≠ .panic := by
-  sorry
+  unfold clientSend
+  cases hv : validateRequests reqs with
+  | panic => exact absurd hv (validateRequests_ne_panic (goMsgs_of_ok reqs hgo))
+  | err e => intro h; cases h
+  | ok u =>
+    cases u
+    obtain ⟨p, hp, -⟩ := Lemmas.writePlain_spec reqs useCrc sec nsec (Lemmas.Send.wf_of_validated reqs hgo hv)
+    intro h
+    rw [hp] at h
+    cases h
 
 /-- the client refuses exactly the lists that are not sendable -/
 theorem send_refuses_iff (useCrc : Bool) (sec nsec : Int) (reqs : List Msg) (hgo : Spec.MsgsOK reqs) :
     (∃ e, clientSend useCrc sec nsec reqs = .err e) ↔ ¬ Spec.Sendable reqs := by
-  sorry
+  rw [← Lemmas.Send.validateRequests_iff_sendable reqs hgo]
+  unfold clientSend
+  cases hv : validateRequests reqs with
+  | panic => exact absurd hv (validateRequests_ne_panic (goMsgs_of_ok reqs hgo))
+  | err e => exact ⟨fun _ h => (by cases h), fun _ => ⟨e, rfl⟩⟩
+  | ok u =>
+    cases u
+    obtain ⟨p, hp, -⟩ := Lemmas.writePlain_spec reqs useCrc sec nsec (Lemmas.Send.wf_of_validated reqs hgo hv)
+    constructor
+    · rintro ⟨e, he⟩
+      rw [hp] at he
+      cases he
+    · intro h; exact absurd rfl h
 
 /-- and otherwise hands over exactly one block-aligned, zero-padded frame whose length fields agree with its
     content (the frame grammar accepts it), that decodes to exactly those requests, carries the current time,
@@ -36,15 +47,49 @@ theorem send_frame_wf (useCrc : Bool) (sec nsec : Int) (reqs : List Msg) (hgo : 
     (p : List Byte) (h : clientSend useCrc sec nsec reqs = .ok p) :
     32 ≤ p.length ∧ p.length % 32 = 0 ∧ Spec.specDecode p = some reqs ∧ decodeFrame p = .ok reqs ∧
       frameTime p = (sec, nsec) ∧ ((leNat ((p.drop 2).take 2) >>> 12) &&& 1 = 1 ↔ useCrc = true) := by
-  sorry
+  unfold clientSend at h
+  cases hv : validateRequests reqs with
+  | panic => rw [hv] at h; cases h
+  | err e => rw [hv] at h; cases h
+  | ok u =>
+    cases u
+    rw [hv] at h
+    obtain ⟨q, hq, h1, h2, h3, h4, h5, h6, h7⟩ := Lemmas.Send.send_frame useCrc sec nsec reqs hgo hs hn hv
+    have hqp : q = p := by
+      have := hq.symm.trans h
+      injection this
+    subst hqp
+    exact ⟨h1, h2, h3, h4, by simp only [frameTime, h5, h6], h7⟩
 
 /-- the errors are the documented ones -/
 theorem send_error_classes (useCrc : Bool) (sec nsec : Int) (reqs : List Msg) (hgo : Spec.MsgsOK reqs) (e : ErrClass)
     (h : clientSend useCrc sec nsec reqs = .err e) : e = .notARequest ∨ e = .typeMismatch ∨ e = .dataLimit := by
-  sorry
+  unfold clientSend at h
+  cases hv : validateRequests reqs with
+  | panic => rw [hv] at h; cases h
+  | err e' =>
+    rw [hv] at h
+    injection h with h
+    subst h
+    rcases validateRequests_err hv with h | h | h
+    · exact Or.inr (Or.inl h)
+    · exact Or.inr (Or.inr h)
+    · exact Or.inl h
+  | ok u =>
+    cases u
+    rw [hv] at h
+    obtain ⟨p, hp, -⟩ := Lemmas.writePlain_spec reqs useCrc sec nsec (Lemmas.Send.wf_of_validated reqs hgo hv)
+    rw [hp] at h
+    cases h
 
 -- non-vacuity
 example : Spec.Sendable [.mk 1 14 (.msgs [.mk 2 13 (.str [0x61]), .mk 3 13 (.str [])])] := by
-  sorry
+  refine ⟨by simp [Msg.tag, Nat.testBit], ?_, by decide⟩
+  simp [Spec.ItemsOK, Spec.ItemOK, Spec.typeRow, Spec.typeTable, lookup, Val.kind, Spec.wireValSize, Spec.wireSize,
+    Spec.maxItemData]
 
+#print axioms send_no_panic
+#print axioms send_refuses_iff
+#print axioms send_frame_wf
+#print axioms send_error_classes
 end Rscp.Props.C05
